@@ -633,7 +633,8 @@ StartStep(st0, gv, eng) ==
      LET s0 == Log([st EXCEPT !.status = "running"], L("interp_start", "", "", {}))
          s1 == EnterL(s0, <<D.root>>, NoEv, 1, eng, TRUE)
          s2 == SyncDrain(s1, gv, 1, eng)
-         s3 == Settle(s2, gv, 1, eng, FALSE)
+         s3a == Settle(s2, gv, 1, eng, TRUE)
+         s3 == SyncDrain(s3a, gv, 1, eng)       \* what the initial eventless transitions raised
      IN IF Failed(s3) THEN s3 ELSE Log(s3, L("on_transition", "start", "init", s3.config))
 
 SendStep(st0, evtype, gv, eng) ==
